@@ -16,8 +16,8 @@ import (
 	"fmt"
 	"testing"
 
-	bpmn "github.com/olive-io/bpmn/v2"
 	"github.com/olive-io/bpmn/schema"
+	bpmn "github.com/olive-io/bpmn/v2"
 	"pgregory.net/rapid"
 
 	"verif/harness/drive"
@@ -137,9 +137,12 @@ func TestC14Ring(t *testing.T) {
 	rapid.Check(t, func(rt *rapid.T) {
 		n := rapid.IntRange(2, 3).Draw(rt, "n")
 		d := ringDesc{Defs: kindsFor(n, rapid.IntRange(0, 2).Draw(rt, "variant")), DeclSeed: rapid.IntRange(0, 200).Draw(rt, "declSeed")}
+		if rapid.IntRange(0, 2).Draw(rt, "qualifiedRefs") == 0 {
+			d.Defs = qualified(d.Defs)
+		}
 		for i := rapid.IntRange(2, 14).Draw(rt, "steps"); i > 0; i-- {
 			if rapid.IntRange(0, 5).Draw(rt, "noise") == 0 {
-				d.Steps = append(d.Steps, n+rapid.IntRange(0, 3).Draw(rt, "variant"))
+				d.Steps = append(d.Steps, n+rapid.IntRange(0, 4).Draw(rt, "variant"))
 			} else {
 				d.Steps = append(d.Steps, rapid.IntRange(0, n-1).Draw(rt, "sym"))
 			}
